@@ -519,7 +519,7 @@ def _fold_generate(ctx: Ctx):
     it.globals["generate_notifications"] = ("host", lambda n, spec: [(f, dict(v, method=n.fields["method"])) for f, v in pairs_not])
     it.globals["get_hash_from"] = ("host", lambda text: hashlib.sha256(text.encode("utf-8")).hexdigest())
     it.globals["RESPONSE_ERROR"] = Record("Structure", {"name": "ResponseError"})
-    it.globals.setdefault("json", ModuleRef("json", attrs={"dumps": ("host", _json.dumps)}))
+    it.globals.setdefault("json", microeval.json_module())
 
     def msg(method, type_name):
         return Record("Message", {"method": method, "typeName": type_name, "params": None, "result": None})
